@@ -137,6 +137,11 @@ def all_cells():
                             pos='%s-col/empty-frame' % POSNAME[c], col=c,
                             empty=True)
             if mode == 'append':
+                # an argument today's library ignores on append; a tree that
+                # looks at it may refuse it - then the dataset must be intact -
+                # or accept it - then exactly the new rows must have arrived
+                add(state=state, mode=mode, kind='custom-metadata-non-text',
+                    pos=None, either=True)
                 add(state=state, mode=mode, kind='file-scheme-differs',
                     pos=None)
                 add(state=state, mode=mode, kind='file-scheme-differs',
@@ -456,6 +461,29 @@ def _execute(case, fs, path, res, cnt, probes, bump, violation, cells, state,
                     bump(probes, 'refusal_after_bytes_were_written')
             else:
                 bump(probes, 'refusal_before_any_storage_call')
+            if outcome == 'returned' and cell.get('either'):
+                bump(probes, 'optional_refusal_accepted')
+                try:
+                    after = D.read_all(fs, path)
+                    exp = _rows(before) + F.rows_of(
+                        F.canon_frame(LAST_FRAME[0]), sorted(before['canon']))
+                    got = _rows(after)
+                    bad = (sorted(got, key=repr) if partitioned else got) != \
+                        (sorted(exp, key=repr) if partitioned else exp)
+                    why = '%d rows read, %d expected' % (len(got), len(exp))
+                except Exception as e:
+                    bad, why = True, 'fresh open/read fails: %s: %s' % (
+                        type(e).__name__, e)
+                if bad:
+                    violation('C18/dataset-damaged:%s' % cell['id'],
+                              'step %d cell %s: accepted, but %s'
+                              % (si, cell['id'], why), si)
+                    break
+                before = after
+                if long_pf:
+                    # the dataset changed behind the kept handle's back
+                    long_pf[0] = D.open_pf(path, fs)
+                continue
             if outcome == 'returned':
                 violation('C18/rejected-operation-returned-normally:%s/%s'
                           % (cell['mode'], cell['kind']),
@@ -509,6 +537,9 @@ def _execute(case, fs, path, res, cnt, probes, bump, violation, cells, state,
         res['sample'] = {'state': state, 'row_groups': case['nrg'],
                          'steps': case['steps'], 'knobs': case['knobs']}
     return res
+
+
+LAST_FRAME = [None]
 
 
 def run_cell(fs, cell, path, scheme, parts, vtype, rng, case, long_pf=None):
@@ -599,10 +630,13 @@ def run_cell(fs, cell, path, scheme, parts, vtype, rng, case, long_pf=None):
                 'extra-column') else []
         if cell.get('empty'):
             df = df.iloc[:0]
+        LAST_FRAME[0] = df
         if mode == 'append':
+            extra = {'custom_metadata': {'owner': 'etl', 'retries': 5}} \
+                if kind == 'custom-metadata-non-text' else {}
             write(path, df, file_scheme=app_scheme, partition_on=app_parts,
                   append=True, row_group_offsets=third, compression=comp,
-                  **D.io(fs))
+                  **extra, **D.io(fs))
         elif mode == 'overwrite':
             write(path, df, file_scheme=app_scheme, partition_on=app_parts,
                   append='overwrite', row_group_offsets=third,
